@@ -581,6 +581,27 @@ Lemma step_alloc_eq fence s size al ans :
   else alloc_here fence s size al.
 Proof. reflexivity. Qed.
 
+Theorem release_only_on_shrink fence s o ans :
+  let '(s', out, calls, w) := step fence s o ans in
+  o = SShrink \/ forallb (fun c => match c with UFree _ _ => false | _ => true end) calls = true.
+Proof.
+  destruct o as [size al|size al| |m|]; unfold step.
+  - destruct ((s_top s =? 0) || _).
+    + unfold take_block. destruct (s_cache s) as [|b c].
+      * destruct (s_kind s), (s_next s =? 0), ans; cbn; try (right; reflexivity);
+          match goal with |- context [if ?c then _ else _] => destruct c end; right; reflexivity.
+      * match goal with |- context [if ?c then _ else _] => destruct c end; right; reflexivity.
+    + right. reflexivity.
+  - destruct (fs_alloc fence (s_top s) (cur_end s) size al) as [[p top']|]; right; reflexivity.
+  - right. reflexivity.
+  - destruct (Nat.ltb _ _); [right; reflexivity|].
+    destruct (length (s_used s) - 1 - m_index m)%nat.
+    + destruct (s_top s <? m_top m); right; reflexivity.
+    + destruct (drop_blocks (S n) (s_used s) (s_cache s)) as [used cache].
+      destruct (negb _); right; reflexivity.
+  - left. reflexivity.
+Qed.
+
 Opaque step.
 
 Definition proj_s (r : sst * sout * list ucall * list (Z * Z)) : sst := fst (fst (fst r)).
